@@ -12,7 +12,7 @@ import json, os
 import vcommon as V
 
 META = dict(
-    text="Lean 4 theorems (Props/C06.lean). (1) table_is_documented: the operator table regenerated from InitInfixOps induces exactly the documented order, partition and associativity of levels (decide over the whole table, numbers not compared). (2) pratt_iff_stratified / expand_iff_statements: for EVERY token list of the fragment (any length, selectors nested to any depth, malformed lists included) the Pratt loop of pratt.go (model, regenerated table) returns a tree and rest iff the textbook stratified recursive-descent parser over the documented levels returns them, and InfixExpandArray returns a statement list iff it is the list of stratified statements (fuel-free form: 'returns with enough fuel'; induction on the token list, the loop cut at each level's binding power, stop property of Expression; the table/grammar link corr_generated is re-established by decide on every run with the binding powers read off the table). (3) lex_spacing: for EVERY token sequence (names, dotted paths, decimal and float numerals, the operators written with operator characters, brackets, comma, semicolon) and EVERY legal spacing of it (Spec/Spacing.lean: a blank is needed only between two words, between characters that would spell another operator or open a comment, before a signed numeral that follows a word or closing bracket, and after a binary minus that follows a blank and precedes a digit) the lexer model reads exactly that token sequence; the four exclusions are shown necessary by counterexample theorems (`a -1` reads as `a`, `-1`: the sign look-back, known finding). (4) infix_text_tokens / text_means_stratified: the text of a block in any legal spacing, nested [ ], ( ), { } to any depth, goes through the lexer and parser models to a token array that depends on the source tree alone, and its expansion is the stratified statement list. A unit test can only sample operator pairs and spacings; the theorems cover all sequences and all legal spacings, and the exhaustive correspondence ties the models to the code.",
+    text="Lean 4 theorems (Props/C06.lean). (1) table_is_documented: the operator table regenerated from InitInfixOps induces exactly the documented order, partition and associativity of levels (decide over the whole table, numbers not compared). (2) pratt_iff_stratified / expand_iff_statements: for EVERY token list of the fragment (any length, selectors nested to any depth, malformed lists included) the Pratt loop of pratt.go (model, regenerated table) returns a tree and rest iff the textbook stratified recursive-descent parser over the documented levels returns them, and InfixExpandArray returns a statement list iff it is the list of stratified statements (fuel-free form: 'returns with enough fuel'; induction on the token list, the loop cut at each level's binding power, stop property of Expression; the table/grammar link corr_generated is re-established by decide on every run with the binding powers read off the table). (3) lex_spacing: for EVERY token sequence (names, dotted paths, decimal and float numerals, the operators written with operator characters, brackets, comma, semicolon) and EVERY legal spacing of it (Spec/Spacing.lean: a blank is needed only between two words, between characters that would spell another operator or open a comment, before a signed numeral that follows a word or closing bracket, and after a binary minus that follows a blank and precedes a digit) the lexer model reads exactly that token sequence; the four exclusions are shown necessary by counterexample theorems (`a -1` reads as `a`, `-1`: the sign look-back, known finding). (4) infix_text_tokens / text_means_stratified: the text of a block in any legal spacing, nested [ ], ( ), { } to any depth, goes through the lexer and parser models to a token array that depends on the source tree alone, and its expansion is the stratified statement list. (5) Interference histories: the expansion and the value of a block in interpreter A are functions of A and the block alone - htree/hval ops create and use other interpreters of every constructor kind (NewZlisp, NewZlispSandbox, NewZlispWithFuncs with a small and with a shifted table, Duplicate, Clone) before and after A, then require the spec's tree made of A's OWN symbols (symbol numbers compared through an overlay accessor), value/effects equal to those of the prefix form under the same history, and equal to the history-free run in a process of its own, for every operator family incl. indexing, slicing, selectors and assignment forms; table theorems package_level_state_allow_list / no_interpreter_state_in_package_level_handlers (regenerated list of every write to a package-level variable from pratt.go and the interpreter constructors: explicit allow-list, only constants and bare top-level functions stored). A unit test can only sample operator pairs and spacings and uses one interpreter kind at a time; the theorems cover all sequences and all legal spacings, and the exhaustive correspondence ties the models to the code.",
     note="Trusted: Lean kernel; axioms propext/Classical.choice/Quot.sound; the extractor zyx (syntactic, cross-checked against the live env.infixOps each run); Model/Pratt.lean, Model/Lexer.lean, Model/Parser.lean, Model/InfixFront.lean are hand-written and tied to zygo/pratt.go, lexer.go, parser.go, comment.go by correspondence (differential testing: `lex`/`parse` channels of C13/C12 rune by rune, and here `expand`: exhaustive operator pairs/triples with spacing variants, every none/blank combination of the gaps of every operator pair through the lexer alone and end to end, random gap kinds, structured blocks, arbitrary token lists, the excluded adjacencies). Not proved: that the fuel the executable models use (fuelFor) always suffices — the unbounded theorems are about 'returns with enough fuel', expandBlock_eq_parseBlock says the two executable functions agree whenever both return, pratt_eq_stratified_partial (bounded, kernel-checked) and the correspondence check the fuel; PrattEqStratified for EVERY well-formed table (only the regenerated one is covered). Outside the fragment of the Pratt theorem (specification silent, model = implementation by correspondence only): if/else, for lowering, break/continue, ++/-- or a prefix-only operator directly followed by a tighter operator, the undotted symbol `.`. Outside lex_spacing: labels and slices written with a colon, string/char literals inside blocks (the lexer-level theorem LegalFrom has them), comments in gaps.",
     technique="Lean 4 proof (Pratt loop = stratified grammar by induction on the token list under a table/grammar correspondence discharged by decide; lexer model reads every legal spacing as the token sequence, induction over the token list; parser model on the token queue, induction over the source tree; table facts by decide) + model/implementation correspondence through the real lexer, parser and expander",
     design_ref="DESIGN.md §7 C06",
@@ -28,6 +28,11 @@ def load_local_known(rep):
     except FileNotFoundError:
         pass
 
+HISTORIES = ["z//", "z//z", "z//s", "z//f", "z//g", "z//d", "z//c", "z//u", "z/z/", "z/s/", "z/f/", "z/g/",
+             "z//us", "z//su", "z/s/s", "z//sz", "z//zs", "z//sfgdc", "z/sfg/gfs", "z//sd", "z//ds",
+             "s//", "s//z", "s//s", "s//f", "s//g", "s//d", "s//c", "s/z/", "s/g/", "s//uz", "s//zu", "s//zs", "s//sz", "s/z/z",
+             "g//", "g//z", "g//s", "g/z/", "g/s/", "g//zs", "g//d"]
+
 def codes(s):
     return ".".join(str(ord(c)) for c in s) if s else "-"
 
@@ -35,6 +40,166 @@ def prefix_program(spec):
     """spec column of a tree op -> zygo source of the prefix form (statements in a begin)."""
     stmts = spec.split(" | ")
     return "(begin " + " ".join(stmts) + ")"
+
+
+
+def confirm_htree_alone(rep, rows):
+    """An `htree` line is self-contained (its history is inside the line), but the batch process has a history of
+    its own (interpreters of earlier lines). Lines that disagree in the batch are re-run ALONE in a fresh process;
+    the answer of the lone run is what the correspondence judges (so a replay is one line). Lines that disagree
+    only inside the batch are reported as a failing SEQUENCE of lines."""
+    idx = [i for i, (op, impl, model, spec) in enumerate(rows) if op.startswith("expand htree ")
+           and ((spec != "-" and impl != spec) or (spec == "-" and impl != model))]
+    if not idx:
+        return rows
+    rows = list(rows)
+    idx.sort(key=lambda i: len(rows[i][0]))
+    confirmed, batch_only = 0, []
+    for i in idx[:80]:
+        op, impl, model, spec = rows[i]
+        alone = V.exec_impl(op + "\n")[0]
+        if (spec != "-" and alone != spec) or (spec == "-" and alone != model):
+            confirmed += 1
+            if confirmed >= 3:
+                break
+        else:
+            batch_only.append((i, op, impl))
+        rows[i] = (op, alone, model, spec)
+    rep.coverage["htree_rerun_alone"] = {"disagreeing_in_batch": len(idx), "confirmed_alone": confirmed, "batch_only": len(batch_only)}
+    if batch_only and not confirmed:
+        i, op, impl = batch_only[0]
+        seq = [r[0] for r in rows[:i + 1] if r[0].startswith("expand htree ")]
+        again = V.exec_impl("\n".join(seq) + "\n")[-1]
+        spec = rows[i][3] if rows[i][3] != "-" else rows[i][2]
+        rep.violation("failing-input", {"channel": "expand", "ops": seq, "spec_requires": spec, "impl_did": again if again != spec else impl,
+                      "why": "the LAST line of this sequence, run in one process, expands differently than alone: the expansion in one interpreter depends on interpreters created by earlier lines",
+                      "others_like_it": len(batch_only)}, key=op, no_input=(again == spec))
+    return rows
+
+def history_phase(rep, rows, vops):
+    """Phase 3 — INTERFERENCE HISTORIES. The meaning of {…} in interpreter A must not depend on which other
+    interpreters (NewZlisp, NewZlispSandbox, NewZlispWithFuncs with a small / a shifted table, Duplicate, Clone of A)
+    were created and used in the process before A expands or evaluates the block. Two judgements per op, both
+    on the real code:
+      (a) under the history, value + (tr …) trace + final bindings of the block = those of the prefix form the
+          Lean SPEC computed (`eq`);
+      (b) the value under the history = the value of the same block in a process in which no other kind of
+          interpreter exists (reference ops `<akind>//`, one `zyh exec` process per kind of A).
+    Ops that fail in the batch are re-run ALONE in a fresh process, so that the replay is one self-contained line."""
+    hops = []
+    for op, impl, model, spec in rows:
+        if not op.startswith("expand htree "):
+            continue
+        _, _, hist, rest = op.split(" ", 3)
+        tree = spec if spec != "-" else None
+        if tree is None:
+            if model in ("err", "-empty-", "bad-op"):
+                continue
+            hops.append("expand hval %s %s => -" % (hist, rest))
+        elif tree not in ("err", "-empty-", "bad-op"):
+            hops.append("expand hval %s %s => %s" % (hist, rest, codes(prefix_program(tree.split(" ## ")[0]))))
+    # the sampled value ops of phase 2 once more, each under a history
+    hs = HISTORIES
+    step = 4 if rep.tier == "quick" else 2
+    for k, vop in enumerate(vops[::step]):
+        hops.append("expand hval %s %s" % (hs[k % len(hs)], vop[len("expand val "):]))
+    hops = list(dict.fromkeys(hops))
+    if not hops:
+        return []
+    def refop(op):
+        t = op.split(" ", 3)
+        return "expand hval %s// %s" % (t[2][0], t[3])
+    refs = {}
+    for akind in "zsg":
+        rl = list(dict.fromkeys(refop(o) for o in hops if o.split(" ", 3)[2][0] == akind))
+        if rl:
+            ans = V.exec_impl("\n".join(rl) + "\n")      # a process of its own: only interpreters of this kind
+            refs.update(zip(rl, ans))
+    impl = V.exec_impl("\n".join(hops) + "\n")
+    def value(ans):
+        t = ans.split(" ")
+        return t[1] if len(t) >= 2 and t[0] in ("eq", "ne", "only") else ans
+    def judge(op, ans, ref):
+        if ans.startswith("ne "):
+            return "under the history the block and its prefix form differ"
+        if not (ans.startswith("eq ") or ans.startswith("only ")):
+            return "no value (%s)" % ans[:40]
+        if value(ans) != value(ref):
+            return "the value differs from the history-free run"
+        return None
+    dist = {"eq": 0, "only(spec silent)": 0, "both-err": 0, "bad": 0}
+    bad = []
+    for op, ans in zip(hops, impl):
+        why = judge(op, ans, refs.get(refop(op), "?"))
+        if why:
+            dist["bad"] += 1
+            bad.append((op, ans, why))
+        elif value(ans).startswith("err"):
+            dist["both-err"] += 1
+        elif ans.startswith("only "):
+            dist["only(spec silent)"] += 1
+        else:
+            dist["eq"] += 1
+    rep.coverage["channels"]["expand-history-value"] = {
+        "ops": len(hops), "reference_ops": len(refs), "distribution": dist, "histories": hs,
+        "rule": "hval <akind>/<pre>/<post>: interpreters of <pre> created and used before A, of <post> after A, then A evaluates {…} "
+                "and (a second A) the prefix form computed by the Lean spec: equal values, traces, bindings; and equal to the run of the "
+                "same block with the empty history in a process holding only interpreters of A's kind"}
+    rep.coverage["evaluations"] = rep.coverage.get("evaluations", 0) + len(hops) + len(refs)
+    bad.sort(key=lambda r: (0 if r[1].startswith("ne ") else 1, len(r[0].split(" => ")[0])))
+    reported = 0
+    confirmed = []
+    for op, ans, why in bad[:12]:
+        if reported >= 3:
+            break
+        alone = V.exec_impl(op + "\n")[0]
+        ref_alone = V.exec_impl(refop(op) + "\n")[0]
+        why2 = judge(op, alone, ref_alone)
+        if why2:
+            reported += 1
+            confirmed.append(op)
+            rep.violation("failing-input", {"channel": "expand", "ops": [op], "reference_op": refop(op),
+                          "spec_requires": "eq " + value(ref_alone) + "   (the meaning of the block in A is a function of A and the block alone)",
+                          "impl_did": alone, "why": why2, "others_like_it": len(bad)}, key=op)
+    if bad and not confirmed:
+        op, ans, why = bad[0]
+        k = hops.index(op)
+        rep.violation("failing-input", {"channel": "expand", "ops": hops[:k + 1], "spec_requires": "eq " + value(refs.get(refop(op), "?")),
+                      "impl_did": ans, "why": why + " (only as the last line of this sequence of ops run in ONE process; alone it passes)",
+                      "others_like_it": len(bad)}, key=op)
+    return bad
+
+
+def replay(body):
+    """bin/replay: value ops (`val`, `hval`) are judged here (the Lean driver does not evaluate); tree ops as usual."""
+    ops = body.get("ops") or []
+    V.prepare([])
+    rc = 0
+    plain = [o for o in ops if not (o.startswith("expand hval ") or o.startswith("expand val "))]
+    if plain:
+        rows, _ = V.run_channel("expand", 1, "quick", extra_ops=plain, gen=False)
+        for op, impl, model, spec in rows:
+            print("op   :", op); print("impl :", impl); print("model:", model); print("spec :", spec)
+            if spec != "-" and impl != spec:
+                print("=> property fails on this input"); rc = 1
+            elif impl != model:
+                print("=> implementation and model differ"); rc = 1
+    vals = [o for o in ops if o not in plain]
+    if vals:
+        ans = V.exec_impl("\n".join(vals) + "\n")           # all lines in ONE process, in order
+        op, a = vals[-1], ans[-1]
+        print("op   :", op); print("impl :", a)
+        if op.startswith("expand hval "):
+            t = op.split(" ", 3)
+            ref = "expand hval %s// %s" % (t[2][0], t[3])
+            r = V.exec_impl(ref + "\n")[0]                    # the history-free run, in a process of its own
+            print("reference op:", ref); print("reference   :", r)
+            va, vr = a.split(" ")[1:2], r.split(" ")[1:2]
+            if a.startswith("ne ") or va != vr:
+                print("=> property fails on this input: under the history the block does not mean its prefix form / its history-free value"); rc = 1
+        elif not a.startswith("eq "):
+            print("=> property fails on this input: value/effects of the block differ from those of its prefix form"); rc = 1
+    return rc
 
 def run(rep):
     load_local_known(rep)
@@ -48,6 +213,8 @@ def run(rep):
         "extract/ex_infixtable.go reads InitInfixOps and LeftBindingPower syntactically; its table is compared with the live env.infixOps on every run (op `expand ops`)",
         "if/else, go-style for, break/continue, and ++/-- or a prefix-only operator directly followed by a tighter operator are outside pratt_iff_stratified (the specification is silent; model = implementation by correspondence only)",
         "value phase: the prefix form is evaluated by the same interpreter (C02 is a separate property)",
+        "interference histories: 42 history shapes over the constructor kinds z/s/f/g/d/c; the history-free reference runs in a process holding only interpreters of A's kind; lines that disagree are re-run alone so that a replay is one line",
+        "extract/ex_infixhandlers.go uses go/types to decide what is a package-level variable; it scans pratt.go and the five interpreter constructors only (state parked elsewhere is found by the history ops, not by the table)",
     ]
     if not (prep["ok_drv"] and prep["ok_harness"]):
         rep.violation("machinery-failure", {"what": "driver or harness did not build against the current tree",
@@ -56,15 +223,6 @@ def run(rep):
     rows, stats = V.run_channel("expand", rep.seed, rep.tier)
     def nontrivial(op, impl):
         return impl not in ("err", "bad-op", "-empty-")
-    bad_spec, bad_model = V.correspondence(rep, "expand", rows, stats, nontrivial=nontrivial)
-    # how often the spacing specification spoke (legal spacing of tokens of its classes)
-    sp = {"ltoks-legal": 0, "ltoks-silent": 0, "ltree-legal-and-in-scope": 0, "ltree-silent": 0}
-    for op, impl, model, spec in rows:
-        if op.startswith("expand ltoks "):
-            sp["ltoks-silent" if spec == "-" else "ltoks-legal"] += 1
-        elif op.startswith("expand ltree "):
-            sp["ltree-silent" if spec == "-" else "ltree-legal-and-in-scope"] += 1
-    rep.coverage["channels"]["expand"]["spacing_spec"] = sp
     # ---- phase 2: value and effects of the block vs the prefix form computed by the SPEC
     vops, seen = [], set()
     limit = 2000 if rep.tier == "quick" else 60000
@@ -98,11 +256,23 @@ def run(rep):
     rep.coverage["channels"]["expand-value"] = {"ops": len(vrows), "distribution": nv,
         "rule": "value, trace of (tr …) effects and final bindings of {…} equal those of (begin <prefix form computed by the Lean spec>) in a fresh interpreter"}
     rep.coverage["evaluations"] = rep.coverage.get("evaluations", 0) + len(vrows)
-    bad_val.sort(key=lambda r: len(r[0]))
+    bad_val.sort(key=lambda r: len(r[0].split(" => ")[0]))
     for op, impl in bad_val[:3]:
         key = op.split(" => ")[0]
         rep.violation("failing-input", {"channel": "expand", "ops": [op], "spec_requires": "eq (same value and effects as the prefix form)",
                                         "impl_did": impl, "others_like_it": len(bad_val)}, key=key)
+    bad_hist = history_phase(rep, rows, vops)
+    # ---- phase 1 judged last, so that VALUE violations (the property as stated) are listed first
+    rows = confirm_htree_alone(rep, rows)
+    bad_spec, bad_model = V.correspondence(rep, "expand", rows, stats, nontrivial=nontrivial)
+    # how often the spacing specification spoke (legal spacing of tokens of its classes)
+    sp = {"ltoks-legal": 0, "ltoks-silent": 0, "ltree-legal-and-in-scope": 0, "ltree-silent": 0}
+    for op, impl, model, spec in rows:
+        if op.startswith("expand ltoks "):
+            sp["ltoks-silent" if spec == "-" else "ltoks-legal"] += 1
+        elif op.startswith("expand ltree "):
+            sp["ltree-silent" if spec == "-" else "ltree-legal-and-in-scope"] += 1
+    rep.coverage["channels"]["expand"]["spacing_spec"] = sp
     rep.coverage["exhaustive"] = True
     rep.coverage["rule"] = ("quick: every sequence of 1, 2 and 3 operators over all 19 binary infix operators (+ - * / mod ** and or == != < <= > >= = := += -= ,) "
                             "in three spacings (all spaces / as tight as the lexer allows / random), every operator pair with 10 operand shapes "
@@ -112,4 +282,4 @@ def run(rep):
                             "every pair of the lexer's operator texts around names, numerals, signed numerals and floats with signed exponents in every none/blank combination (sampled 1/3 in quick), adjacent operators, "
                             "random sequences and structured blocks with random gap kinds (none, blank, tab, newline, CR LF, double blank), and the adjacencies the spacing rules exclude (malformed stream: impl vs model only); "
                             "thorough: all 4-operator sequences and 20-40x the samples. An op is non-trivial when the implementation produced a tree.")
-    V.proof_break_resolution(rep, bool(bad_spec) or bool(bad_val))
+    V.proof_break_resolution(rep, bool(bad_spec) or bool(bad_val) or bool(bad_hist))
